@@ -130,3 +130,20 @@ Theorem C01_conc_namesake_inherits_during_cleanup_refuted :
                            end) namesake_schedule = true /\
     (exists o : oid, cmap (cg (fst r)) 7 = Some o /\ covered (fst r) 20 7 o).
 Proof. exact conc_namesake_inherits_during_cleanup_refuted. Qed.
+
+From NW Require Import Proofs.ConcLeak.
+
+Theorem C01_conc_no_cross_channel_leak :
+  forall (cf : ccfg) (es : list ev) (e : ev) (c : conn) (ch : chan) 
+      (from : user) (payload : N),
+    fixed cf ->
+    let s := cstate_after cf es in
+    In (OMsg c ch from payload) (snd (cstep cf s e)) ->
+    exists (u : user) (o : oid),
+      cuser (cg s) c = Some u /\
+      cmap (cg s) ch = Some o /\
+      In u (members (objs (cg s) o)) /\
+      In from (members (objs (cg s) o)) /\
+      allowed (racl (objs (cg s) o)) u = true /\
+      allowed (pacl (objs (cg s) o)) from = true /\ (is_listed (cg s) u ch \/ covered s u ch o).
+Proof. exact conc_no_cross_channel_leak. Qed.
